@@ -18,6 +18,7 @@ pub fn parts_for(property: &str) -> Option<Vec<Box<dyn PartDyn>>> {
     Some(match property {
         "C02" => c02::parts(),
         "C03" => c03::parts(),
+        "C01" => c04::parts_c01(),
         "C04" => c04::parts(),
         "C09" => c04::parts_c09(),
         "C06" => c06::parts(),
@@ -34,4 +35,4 @@ pub fn parts_for(property: &str) -> Option<Vec<Box<dyn PartDyn>>> {
     })
 }
 
-pub const ALL: &[&str] = &["C02", "C03", "C04", "C06", "C07", "C09", "C10", "C11", "C12", "C14", "C15", "C16", "C19", "C20"];
+pub const ALL: &[&str] = &["C01", "C02", "C03", "C04", "C06", "C07", "C09", "C10", "C11", "C12", "C14", "C15", "C16", "C19", "C20"];
